@@ -1,4 +1,4 @@
-import json, sys, glob, jsonschema
+import json, sys, glob, jsonschema  # run with python3-vt
 jsonschema.validate(json.load(open('/verif/MANIFEST.json')), json.load(open('/root/.vp/MANIFEST.schema.json')))
 es = json.load(open('/root/.vp/EVIDENCE.schema.json'))
 for f in sorted(glob.glob('/verif/evidence/*.json')):
